@@ -40,7 +40,9 @@ Inductive obs :=
 | OVal (v : json)      (* a JSON-shaped value *)
 | OParse               (* CELParseError (or lark's position assertion) at compile *)
 | OEval                (* evaluate returned PermFail *)
-| OOther.              (* a value that is not JSON-shaped (inf, non-string keys, bytes ...) *)
+| OOther               (* a value that is not JSON-shaped (inf, non-string keys, bytes ...) *)
+| ORaise.              (* evaluate() itself raised: celpy's tree_dump fails while an evaluation
+                          error is being reported (a defect outside C11, see notes/C11.md) *)
 
 Inductive case :=
 | CEncode (v : json) (tb : ftable) (out : string)   (* encode_cel(v) = out *)
@@ -60,6 +62,7 @@ Definition check_case (c : case) : bool :=
       | ROk v, OVal w => json_same v w
       | RParse, OParse => true
       | REval, OEval => true
+      | REval, ORaise => true                (* an evaluation error either way *)
       | _, _ => false
       end
   | CEvalImg t o =>
